@@ -80,6 +80,19 @@ static std::string relcon(const Poly_Con_Relation& r) {
 static Congruence_System mkcgs(const Op& o, unsigned n) { Congruence_System cgs(n); for (size_t i = 0; i < o.cs.size(); ++i) cgs.insert(mkcg(o.cs[i].second, rowmod(o.cs[i].first, o.mod), n)); return cgs; }
 static Grid_Generator_System mkggs(const Op& o, unsigned n) { Grid_Generator_System gs(n); for (size_t i = 0; i < o.gs.size(); ++i) gs.insert(mkgg(o.gs[i].first, o.gs[i].second, n)); return gs; }
 
+static Grid* rebuilt(const Grid& x, int style) {
+  Grid c(x); unsigned sn = c.space_dimension(); Grid* q = 0;
+  if (style % 3 == 0) { q = new Grid(sn); q->add_congruences(c.minimized_congruences()); }
+  else if (style % 3 == 1) { if (c.is_empty()) q = new Grid(sn, EMPTY); else { q = new Grid(sn, EMPTY); q->add_grid_generators(c.grid_generators()); } }
+  else { q = new Grid(sn); Congruence_System cs = c.congruences(); for (Congruence_System::const_iterator i = cs.begin(); i != cs.end(); ++i) q->add_congruence(*i); (void) q->grid_generators(); }
+  return q;
+}
+static void widen_call(const std::string& op, Grid* x, const Grid& y, const Congruence_System& cgs, unsigned* tp) {
+  if (op == "congruence_widening") x->congruence_widening_assign(y, tp); else if (op == "generator_widening") x->generator_widening_assign(y, tp); else if (op == "widening") x->widening_assign(y, tp);
+  else if (op == "limited_congruence") x->limited_congruence_extrapolation_assign(y, cgs, tp); else if (op == "limited_generator") x->limited_generator_extrapolation_assign(y, cgs, tp);
+  else x->limited_extrapolation_assign(y, cgs, tp);
+}
+static std::string plain_of(const std::string& op) { return op == "limited_congruence" ? "congruence_widening" : op == "limited_generator" ? "generator_widening" : op == "limited_extrapolation" ? "widening" : op; }
 static void run_history(const std::vector<std::string>& lines, int fd) {
   vj::install_terminate();
   vj::Writer W(fd); Slot S[4];
@@ -89,6 +102,7 @@ static void run_history(const std::vector<std::string>& lines, int fd) {
     Op o = parse(lines[t]); Slot& d = S[o.dst]; Slot& s = S[o.src > 0 ? o.src : o.dst];
     std::string exc = "", obs = "[]", rr = "{\"ok\":false,\"num\":0,\"den\":1,\"ext\":false,\"fn\":0,\"fd\":1}", rc = "{\"sat\":false,\"inc\":false,\"dis\":false,\"si\":false}";
     bool rb = false; long ri = 0; unsigned n = d.p ? d.p->space_dimension() : 0; big = false; const std::string& op = o.op;
+    std::string plain = desc(Slot()), wtwin = desc(Slot());
     try {
       if (op == "new") { Grid* q = new Grid(o.n, o.k == "empty" ? EMPTY : UNIVERSE); delete d.p; d.p = q; }
       else if (op == "from_cgs") { Grid* q = new Grid(mkcgs(o, o.n)); delete d.p; d.p = q; }
@@ -163,9 +177,16 @@ static void run_history(const std::vector<std::string>& lines, int fd) {
       else if (op == "map_dims") { Partial_Function pf; for (size_t i = 0; i < o.vs.size(); ++i) if (o.vs[i] >= 0) pf.insert(i, o.vs[i]); d.p->map_space_dimensions(pf); }
       else if (op == "expand") d.p->expand_space_dimension(Variable(o.var), o.den);
       else if (op == "fold") { Variables_Set vs; for (size_t i = 0; i < o.vs.size(); ++i) vs.insert(Variable(o.vs[i])); d.p->fold_space_dimensions(vs, Variable(o.var)); }
-      else if (op == "congruence_widening" || op == "generator_widening" || op == "widening") { unsigned tk = o.den; unsigned* tp = (o.mod > 0) ? &tk : 0;
-        if (d.p->space_dimension() == s.p->space_dimension() && ((o.var % 2) || !d.p->contains(*s.p))) d.p->upper_bound_assign(*s.p);
-        if (op == "congruence_widening") d.p->congruence_widening_assign(*s.p, tp); else if (op == "generator_widening") d.p->generator_widening_assign(*s.p, tp); else d.p->widening_assign(*s.p, tp); ri = tk; }
+      else if (op == "congruence_widening" || op == "generator_widening" || op == "widening" || op == "limited_congruence" || op == "limited_generator" || op == "limited_extrapolation") {
+        unsigned tk = o.den < 0 ? 0 : o.den; unsigned* tp = (o.mod > 0) ? &tk : 0; Congruence_System cgs = mkcgs(o, n);
+        if (d.p->space_dimension() != s.p->space_dimension() || &d == &s) { widen_call(op, d.p, *s.p, cgs, tp); ri = tk; }
+        else {
+          d.p->upper_bound_assign(*s.p);       // z = receiver joined with the argument
+          { Slot t; t.p = new Grid(*d.p); Congruence_System none(n); widen_call(plain_of(op), t.p, *s.p, none, 0); plain = desc(t); delete t.p; }
+          { Slot tz; tz.p = rebuilt(*d.p, o.var); Grid* ts = rebuilt(*s.p, o.var + 1); unsigned tk2 = tk; widen_call(op, tz.p, *ts, cgs, tp ? &tk2 : 0); wtwin = desc(tz);
+            rr = std::string("{\"ok\":true,\"num\":") + std::to_string(tk2) + ",\"den\":1,\"ext\":false,\"fn\":0,\"fd\":1}"; delete tz.p; delete ts; }
+          widen_call(op, d.p, *s.p, cgs, tp); ri = tk; }
+      }
       else exc = "unknown-op";
     }
     catch (std::invalid_argument&) { exc = "invalid_argument"; } catch (std::length_error&) { exc = "length_error"; }
@@ -179,7 +200,7 @@ static void run_history(const std::vector<std::string>& lines, int fd) {
     vj::Obj e; e.s("e", "Op").i("t", t).s("op", op).i("dst", o.dst).i("src", o.src).i("argn", o.n).s("k", o.k).i("var", o.var).i("den", o.den).i("mod", o.mod)
       .raw("v", vj::arr(o.v)).raw("w", vj::arr(o.w)).raw("vs", vj::arr(o.vs)).raw("cs", vj::arrs(ccs)).raw("gs", vj::arrs(ggs))
       .b("rb", rb).i("ri", ri).raw("rr", rr).raw("rc", rc).s("exc", exc).raw("obs", obs)
-      .raw("post", std::string("[") + p1 + "," + p2 + "," + p3 + "]").b("big", big);
+      .raw("post", std::string("[") + p1 + "," + p2 + "," + p3 + "]").raw("plain", plain).raw("wtwin", wtwin).b("big", big);
     W.line(e.str());
     if (big) { W.line("{\"e\":\"Reset\"}"); for (int i = 1; i <= 3; ++i) { delete S[i].p; S[i].p = 0; } }
   }
